@@ -103,13 +103,21 @@ func loopPos(li *loopInfo) token.Pos {
 			best = p
 		}
 	}
-	for b := range li.blocks {
+	scan := func(b *ssa.BasicBlock) {
 		for _, in := range b.Instrs {
-			if _, ok := in.(*ssa.DebugRef); ok {
-				continue
+			switch in.(type) {
+			case *ssa.DebugRef, *ssa.Phi:
+				continue // a phi carries the position of the variable's declaration, which may precede the loop
 			}
 			consider(in.Pos())
 		}
+	}
+	scan(li.header)
+	if best.IsValid() {
+		return best
+	}
+	for b := range li.blocks {
+		scan(b)
 	}
 	return best
 }
